@@ -51,6 +51,8 @@ fn main() {
         "C03" => run_property(props::c03_certs::C03, run_args),
         "C04" => run_property(props::c04_admission::C04, run_args),
         "C06" => run_property(props::c06_safe_to::C06, run_args),
+        "C07" => run_property(props::c07_parent_ready::C07, run_args),
+        "C08" => run_property(props::c08_finality::C08, run_args),
         "C15" => run_property(props::c15_merkle::C15, run_args),
         _ => {
             eprintln!("unknown property id {id}");
